@@ -3,6 +3,7 @@
 -/
 import GraphiqModel.Proofs.InverseCircuit
 import GraphiqModel.Proofs.CanonUnique
+import GraphiqModel.Proofs.CanonCheck
 namespace Graphiq.C05
 open Graphiq Graphiq.PRow Graphiq.STab Graphiq.Tab
 
@@ -97,6 +98,11 @@ theorem canon_shape_unique (a b : STab) (ha : STab.Canon a) (hb : STab.Canon b) 
     (s : a.n = b.n ∧ ∀ p, a.Spn p ↔ b.Spn p) : SameRows a b :=
   ⟨s.1, canon_unique a b ha hb ga gb ⟨s.1, fun p => (s.2 p).1, fun p => (s.2 p).2⟩⟩
 
+/-- **The executable shape checker is sound**: a tableau accepted by `STab.isCanon` (driver command `stab.iscanon`, which
+    the correspondence harness runs on every canonical form the *real* `canonical_form` returns) has the shape `Canon`;
+    so two accepted real commuting tableaux with the same signed group are row-wise equal (`canon_shape_unique`). -/
+theorem shape_checker_sound (c : STab) (h : c.isCanon = true) : STab.Canon c := isCanon_sound c h
+
 /-- the full normal-form statement: `canonical_form` is a *normal form* for the signed group — two real commuting
     generating sets of the same signed group have row-wise equal canonical forms (completeness of `Stabilizer.__eq__`:
     it never reports two equal states different).  Proved below as `canonical_form_is_normal_form`; it is pure Gaussian
@@ -171,6 +177,9 @@ theorem bell_spanEq : SpanEq bellMinus bellMinusXX := by
     · exact InSpan.eqv _ _ (InSpan.mul _ _ (spn_gen bellMinusXX 0 (by decide)) (spn_gen bellMinusXX 1 (by decide)))
         (beqOn_eqOn _ _ _ (by decide))
     · exact InSpan.eqv _ _ (spn_gen bellMinusXX 1 (by decide)) (beqOn_eqOn _ _ _ (by decide))
+
+/-- the checker accepts a non-trivial tableau (−XX, ZZ) and rejects a non-reduced one (YY, ZZ) -/
+example : bellMinusXX.isCanon = true ∧ bellMinus.isCanon = false := by decide
 
 theorem canonicalForm_ok (t : STab) (h : t.canonLoops.2 = t.n) : t.canonicalForm = .ok t.canonLoops.1 := by
   unfold canonicalForm; rw [if_pos h]
